@@ -222,6 +222,7 @@ pub struct Run {
     pub configs: Vec<ConfigStat>,
     pub ops: BTreeMap<String, OpStat>,
     pub violations: Vec<Violation>,
+    pub dropped_violations: u64,
     pub known_hits: BTreeMap<String, (u64, String)>,
     pub known_fn: Option<KnownFn>,
     pub enabled_known: Vec<String>,
@@ -306,6 +307,7 @@ impl Run {
             configs: Vec::new(),
             ops: BTreeMap::new(),
             violations: Vec::new(),
+            dropped_violations: 0,
             known_hits: BTreeMap::new(),
             known_fn: None,
             enabled_known,
@@ -335,6 +337,7 @@ impl Run {
             configs: Vec::new(),
             ops: BTreeMap::new(),
             violations: Vec::new(),
+            dropped_violations: 0,
             known_hits: BTreeMap::new(),
             known_fn: None,
             enabled_known: Vec::new(),
@@ -399,7 +402,7 @@ impl Run {
     }
 
     pub fn total_violations(&self) -> u64 {
-        self.ops.values().map(|o| o.violations).sum()
+        self.ops.values().map(|o| o.violations).sum::<u64>() + self.dropped_violations
     }
 
     /// Explore one configuration: every state of the plan x every operation of the table.
@@ -499,6 +502,11 @@ impl Run {
                         }
                         if !e.admits(&o) {
                             s.violations += 1;
+                            if viols.len() >= 50_000 {
+                                // enough examples kept; the rest are counted only (memory bound)
+                                s.known += 1; // reused below as "dropped" counter of this thread
+                                return;
+                            }
                             viols.push(Violation {
                                 config: T::type_name(),
                                 op: op.name.to_string(),
@@ -563,7 +571,7 @@ impl Run {
                                     }
                                 }
                             }
-                            if viols.len() > 100_000 {
+                            if viols.len() >= 50_000 {
                                 capped = true;
                                 break;
                             }
@@ -603,6 +611,8 @@ impl Run {
                 self.cap_hit = true;
             }
             for (i, s) in st.into_iter().enumerate() {
+                // violations beyond the per-thread example cap were counted but not kept
+                self.dropped_violations += s.known;
                 cs.transitions += s.transitions;
                 cs.nontrivial += s.nontrivial;
                 cs.skipped += s.skipped;
